@@ -138,7 +138,7 @@ def _q(fields):
 
 
 NAME_CASES = []
-for _f in ["class", "in", "None", "async", "copy", "json", "model_config", "dict", "_under", "schema", "fields", "typename__", "self", "Field", "match", "type", "model_fields_set", "construct", "x_", "camelCase", "snake_case", "UPPER", "_"]:
+for _f in ["_class", "_in", "_and", "_copy", "__json", "_None", "class", "in", "None", "async", "copy", "json", "model_config", "dict", "_under", "schema", "fields", "typename__", "self", "Field", "match", "type", "model_fields_set", "construct", "x_", "camelCase", "snake_case", "UPPER", "_"]:
     NAME_CASES.append((f"result_field:{_f}",) + _q([_f]) + ({},))
 for _v in ["in", "None", "True", "class", "mro", "_a_", "name", "value", "lower", "_x"]:
     NAME_CASES.append((f"enum_value:{_v}", f"enum E {{ {_v} OK }}\ntype Query {{ e: E f(e: E = {_v}): E }}", "query Q($e: E) { e f(e: $e) }", {}))
@@ -150,7 +150,7 @@ for _a in ["self", "query", "variables", "kwargs", "_query", "response", "data",
     NAME_CASES.append((f"variable:{_a}", f"type Query {{ f({_a}: Int): Int }}", f"query Q(${_a}: Int) {{ f({_a}: ${_a}) }}", {}))
 for _o in ["class", "Import", "async", "query", "Client", "execute", "get_data", "_private", "A1", "client", "enums", "base_model", "fragments", "__init__"]:
     NAME_CASES.append((f"operation:{_o}", "type Query { a: Int }", f"query {_o} {{ a }}", {}))
-for _i in ["class", "copy", "in", "_x", "json", "model_config", "self", "Field"]:
+for _i in ["class", "copy", "in", "_x", "json", "model_config", "self", "Field", "_and", "_or", "_not", "_copy", "modelDump", "modelConfig", "JSON"]:
     NAME_CASES.append((f"input_field:{_i}", f"input I {{ {_i}: Int = 1 }}\ntype Query {{ f(i: I): Int }}", "query Q($i: I) { f(i: $i) }", {}))
 NAME_CASES.append(("fragment:class", "type Query { u: U }\ntype U { id: ID }", "query Q { u { ...class } }\nfragment class on U { id }", {}))
 NAME_CASES.append(("fragment:Optional", "type Query { u: U }\ntype U { id: ID n: Int }", "query Q { u { ...Optional n } }\nfragment Optional on U { id }", {}))
